@@ -141,9 +141,12 @@ fn isolate_parent(args: &[String], out: &str) {
     let exe = std::env::current_exe().unwrap();
     let mut from = 0usize;
     let mut guard = 0;
+    // deadline scale: a case that misses its deadline is run once more with a 15 times longer one
+    // before TIMEOUT is recorded (a stalled machine must not look like a hanging implementation)
+    let mut scale = 1u64;
     loop {
         guard += 1;
-        if guard > 2000 {
+        if guard > 4000 {
             break;
         }
         let mut cmd = std::process::Command::new(&exe);
@@ -153,6 +156,7 @@ fn isolate_parent(args: &[String], out: &str) {
             }
         }
         cmd.arg("--from").arg(from.to_string()).arg("--stack-mb").arg("8");
+        cmd.env("GTH_DEADLINE_SCALE", scale.to_string());
         let status = cmd.status().expect("spawn worker");
         if status.success() {
             break;
@@ -162,6 +166,12 @@ fn isolate_parent(args: &[String], out: &str) {
         let mut it = marker.split_whitespace();
         let idx: usize = it.next().and_then(|x| x.parse().ok()).unwrap_or(from);
         let id = it.next().unwrap_or("?").to_string();
+        if status.code() == Some(3) && scale == 1 {
+            scale = 15;
+            from = idx;
+            continue;
+        }
+        scale = 1;
         let why = if status.code() == Some(3) { "TIMEOUT" } else { "OVERFLOW" };
         use std::io::Write;
         let mut f = std::fs::OpenOptions::new().append(true).create(true).open(format!("{}/impl.out", out)).unwrap();
@@ -282,7 +292,8 @@ fn emit(prop: &str, tier: &str, seed: u64, shard: (usize, usize), out: &str, rep
             let size = c.doc.as_ref().map(|d| d.len()).unwrap_or(0) as u64;
             let now = std::time::SystemTime::now().duration_since(std::time::UNIX_EPOCH).unwrap().as_millis() as u64;
             // generous budget: 2 s + 5 ms per character of the document
-            deadline.store(now + 2000 + 5 * size, std::sync::atomic::Ordering::SeqCst);
+            let scale: u64 = std::env::var("GTH_DEADLINE_SCALE").ok().and_then(|x| x.parse().ok()).unwrap_or(1);
+            deadline.store(now + scale * (2000 + 5 * size), std::sync::atomic::Ordering::SeqCst);
         }
         let res = catch_unwind(AssertUnwindSafe(|| jobs::run_impl(c, si, doc_ast.as_ref())));
         deadline.store(0, std::sync::atomic::Ordering::SeqCst);
